@@ -1490,5 +1490,68 @@ theorem resolvedDeps_allDeps_exist (fs : FS) (tk : PTask) (hun : ∀ sl ∈ tk.p
       have := hu sl hsl
       rw [hnone] at this; simp at this
 
+/-- Re-assembling an accepted pick list: an accepted pick followed by an accepted rest. -/
+theorem loop_cons_ok {Y : YieldFn} {F : BodyFn} {s s' : Sess} {t : Nat} {ts : List Nat}
+    (h1 : s.stop = false) (h2 : s.crashed = false) (h3 : LegalBatch s.so 1 [tv t]) (h4 : (findTask s.tasks t).isSome)
+    (h5 : loop Y F (stepOf Y F s t) ts = .ok s') : loop Y F s (t :: ts) = .ok s' := by
+  have hl : legalBatchB s.so 1 [tv t] = true := (legalBatchB_iff _ _ _).2 h3
+  have hact : s.so.isActive = true := by
+    have := (mem_avail.1 (h3.2.1 (tv t) (by simp))).1
+    unfold isActive
+    cases hn : s.so.nodes with
+    | nil => rw [hn] at this; cases this
+    | cons a as => rfl
+  unfold loop
+  rw [if_neg (by simp [h1, h2, hact]), if_neg (by simp [hl])]
+  cases hf : findTask s.tasks t with
+  | none => rw [hf] at h4; cases h4
+  | some x => exact h5
+
+theorem loop_append_ok {Y : YieldFn} {F : BodyFn} : ∀ (p q : List Nat) (a b c : Sess),
+    loop Y F a p = .ok b → loop Y F b q = .ok c → loop Y F a (p ++ q) = .ok c
+  | [], q, a, b, c, hab, hbc => by
+    simp only [loop, Except.ok.injEq] at hab; subst hab; exact hbc
+  | x :: xs, q, a, b, c, hab, hbc => by
+    obtain ⟨c1, c2, c3, c4, c5⟩ := loop_cons hab
+    exact loop_cons_ok c1 c2 c3 c4 (loop_append_ok xs q _ b c c5 hbc)
+
+/-- Every entry of the received-lists log was written by one accepted pick: by the body of task `t`, handed out in the state
+`sm` reached after a prefix of the picks, on the task record left by the resolution of `t`'s pattern dependencies in the
+world of `sm`. -/
+theorem loop_recv {Y : YieldFn} {F : BodyFn} : ∀ (picks : List Nat) (s s' : Sess), loop Y F s picks = .ok s' →
+    ∀ e ∈ s'.recv, e ∈ s.recv ∨ ∃ pre t post sm tk, picks = pre ++ t :: post ∧ loop Y F s pre = .ok sm ∧
+      findTask sm.tasks t = some tk ∧
+      e = ⟨t, received (resolvedDeps sm.w.fs tk), seenBy (resolvedDeps sm.w.fs tk) sm.w.fs⟩
+  | [], s, s', h, e, he => by
+    simp only [loop, Except.ok.injEq] at h; subst h; exact Or.inl he
+  | t :: ts, s, s', h, e, he => by
+    obtain ⟨c1, c2, c3, c4, c5⟩ := loop_cons h
+    rcases loop_recv ts _ s' c5 e he with h1 | ⟨pre, t', post, sm, tk, hp, hl, hf, heq⟩
+    · cases hft : findTask s.tasks t with
+      | none => rw [hft] at c4; cases c4
+      | some tk =>
+        have hobs := protocol_obs Y F { s with so := s.so.take [tv t] } t tk hft
+        have hrecv : (stepOf Y F s t).recv = (protocol Y F { s with so := s.so.take [tv t] } t).recv := rfl
+        rw [hrecv] at h1
+        rcases hobs with ho | ho
+        · rw [ho.2.1] at h1; exact Or.inl h1
+        · rw [ho.2.1] at h1
+          rcases List.mem_append.1 h1 with h2 | h2
+          · exact Or.inl h2
+          · right
+            simp only [List.mem_singleton] at h2
+            exact ⟨[], t, ts, s, tk, rfl, rfl, hft, h2⟩
+    · right
+      exact ⟨t :: pre, t', post, sm, tk, by rw [hp]; rfl, loop_cons_ok c1 c2 c3 c4 hl, hf, heq⟩
+
+theorem initSess_empty {ts : List PTask} {w : World} {s0 : Sess} (h : initSess ts w = some s0) :
+    s0.recv = [] ∧ s0.log = [] ∧ s0.reports = [] ∧ s0.w = w ∧ s0.tasks = ts ∧ s0.failMarks = [] := by
+  unfold initSess at h
+  split at h
+  · cases h
+  · split at h
+    · cases h
+    · cases h; exact ⟨rfl, rfl, rfl, rfl, rfl, rfl⟩
+
 end Prov
 end Pytask
